@@ -15,6 +15,11 @@ use ttl_cache::TtlCache;
 /// FlowKey: (Client IP, Server IP, Client Port, Server Port)
 pub type FlowKey = (IpAddr, IpAddr, u16, u16);
 
+/// Upper bound on the bytes buffered per direction while waiting for a complete message
+/// head. A direction that exceeds it without yielding a head is abandoned, so that memory
+/// per connection and work per packet stay bounded for traffic that never parses.
+const MAX_BUFFERED_HEAD_BYTES: usize = 64 * 1024;
+
 use crate::http_common::HttpParser;
 
 /// HTTP parser that automatically detects and processes different HTTP versions
@@ -288,8 +293,13 @@ fn process_tcp_packet(
                     flow.client_data.push(tcp_data);
                     let full_data = flow.get_full_data(is_client);
 
-                    // Quick check before expensive parsing (supports HTTP/1.x and HTTP/2)
-                    if has_complete_http_data(&full_data, processors) {
+                    if full_data.len() > MAX_BUFFERED_HEAD_BYTES {
+                        // No message head is this large: stop buffering this direction
+                        debug!("CLIENT: no HTTP head within the buffer limit, giving up");
+                        flow.client_data.clear();
+                        flow.client_http_parsed = true;
+                    } else if has_complete_http_data(&full_data, processors) {
+                        // Quick check before expensive parsing (supports HTTP/1.x and HTTP/2)
                         match parse_http_request(&full_data, processors) {
                             Ok(Some(http_request_parsed)) => {
                                 observable_http_package.http_request = Some(http_request_parsed);
@@ -308,8 +318,13 @@ fn process_tcp_packet(
                     flow.server_data.push(tcp_data);
                     let full_data = flow.get_full_data(is_client);
 
-                    // Quick check before expensive parsing (supports HTTP/1.x and HTTP/2)
-                    if has_complete_http_data(&full_data, processors) {
+                    if full_data.len() > MAX_BUFFERED_HEAD_BYTES {
+                        // No message head is this large: stop buffering this direction
+                        debug!("SERVER: no HTTP head within the buffer limit, giving up");
+                        flow.server_data.clear();
+                        flow.server_http_parsed = true;
+                    } else if has_complete_http_data(&full_data, processors) {
+                        // Quick check before expensive parsing (supports HTTP/1.x and HTTP/2)
                         match parse_http_response(&full_data, processors) {
                             Ok(Some(http_response_parsed)) => {
                                 observable_http_package.http_response = Some(http_response_parsed);
